@@ -26,6 +26,10 @@ ImplsAll == {"D", "X", "Y", "X2"}
 ToX == {"X"}
 ToDX == {"D", "X"}
 ToXY == {"X", "Y"}
+ToDXY == {"D", "X", "Y"}
+IdsGen == {QBFT, Cons("x", "1.0.0"), Cons("abft", "1.0.0")}
+GSafe == {"add", "dlv", "sniff"}
+D3 == {3}
 NoSubs == <<>>
 OneSub == <<"s1">>
 TwoSubs == <<"s1", "s2">>
